@@ -21,16 +21,17 @@ ARITH = {
     "__add__": ("operator.add", "+"), "__sub__": ("operator.sub", "-"), "__mul__": ("operator.mul", "*"),
     "__truediv__": ("operator.truediv", "/"), "__floordiv__": ("operator.floordiv", "//"), "__mod__": ("operator.mod", "%"),
     "__pow__": ("operator.pow", "**"),
+    "__rmul__": ("_reverse_mul", "*"),
     "__rsub__": ("_reverse_sub", "-"), "__rtruediv__": ("_reverse_truediv", "/"), "__rfloordiv__": ("_reverse_floordiv", "//"),
     "__rmod__": ("_reverse_mod", "%"), "__rpow__": ("_reverse_pow", "**"),
     "bit_lshift": ("operator.lshift", "<<"), "bit_rshift": ("operator.rshift", ">>"),
 }
-REVERSE = {"_reverse_sub": ast.Sub, "_reverse_truediv": ast.Div, "_reverse_floordiv": ast.FloorDiv, "_reverse_mod": ast.Mod,
+REVERSE = {"_reverse_mul": ast.Mult, "_reverse_sub": ast.Sub, "_reverse_truediv": ast.Div, "_reverse_floordiv": ast.FloorDiv, "_reverse_mod": ast.Mod,
            "_reverse_pow": ast.Pow, "_reverse_add": ast.Add}
 UNARY = {"__neg__": "operator.neg", "__pos__": "operator.pos", "__abs__": "operator.abs"}
 TABLE_ARITH = {"__add__": "operator.add", "__sub__": "operator.sub", "__mul__": "operator.mul", "__truediv__": "operator.truediv",
                "__floordiv__": "operator.floordiv", "__mod__": "operator.mod", "__pow__": "operator.pow"}
-COMMUTATIVE_FORWARD = {"__rmul__": "__mul__"}
+COMMUTATIVE_FORWARD = {}     # (none: `3 * v` forwarded to `v * 3` loses the written operand order for element types whose * is not commutative)
 
 ZIP_WHITELIST = {
     ("display._header_rows", "display_names,sanitized_names"): "both lists are built in lock-step by _compute_headers",
@@ -835,6 +836,8 @@ def _resolve(ctx) -> None:
 
 _V, _T = "vector", "table"
 MUTANTS = [
+    dict(id="rmul-forwards-to-mul", module="vector", old="		return self._elementwise_operation(other, _reverse_mul, '__rmul__', '*')",
+         new="		return self.__mul__(other)", rules=["a.dispatch"], desc="the defect repaired by fix 6ecf214"),
     dict(id="rfloordiv-forward-operator", module=_V, old="		return self._elementwise_operation(other, _reverse_floordiv, '__rfloordiv__', '//')",
          new="		return self._elementwise_operation(other, operator.floordiv, '__rfloordiv__', '//')", rules=["a.dispatch"]),
     dict(id="reverse-mod-swapped", module=_V, old="def _reverse_mod(y, x):\n	return x % y", new="def _reverse_mod(y, x):\n	return y % x", rules=["a.dispatch"]),
